@@ -158,6 +158,18 @@ pub fn invoice_bytes(spec: &InvSpec) -> Vec<u8> {
                 .unwrap();
             signed.to_string()
         }
+        "noncanon" => {
+            // a valid invoice whose text is not the canonical encoding of its fields: an expiry field (tag 'x' = 6,
+            // 3 groups) with a leading zero group.  Parsing and re-encoding it yields another string, which nobody signed.
+            use bech32::u5;
+            let mut raw: RawBolt11Invoice = b.build_raw().unwrap();
+            let g = |v: u8| u5::try_from_u8(v).unwrap();
+            raw.data.tagged_fields.push(lightning_invoice::RawTaggedField::UnknownSemantics(vec![g(6), g(0), g(3), g(0), g(1), g(28)]));
+            let signed = raw
+                .sign::<_, ()>(|h| Ok(secp.sign_ecdsa_recoverable(h, &signer)))
+                .unwrap();
+            signed.to_string()
+        }
         _ => b
             .build_signed(|h| secp.sign_ecdsa_recoverable(h, &signer))
             .unwrap()
@@ -171,6 +183,13 @@ pub fn invoice_bytes(spec: &InvSpec) -> Vec<u8> {
             v
         }
         "truncated" => s.as_bytes()[..s.len() - 7].to_vec(),
+        // one character of the data part in upper case: mixed case is not valid bech32
+        "mixedcase" => {
+            let mut v = s.into_bytes();
+            let at = v.iter().rposition(|c| c.is_ascii_lowercase()).unwrap_or(10);
+            v[at] = v[at].to_ascii_uppercase();
+            v
+        }
         _ => s.into_bytes(),
     }
 }
